@@ -795,3 +795,29 @@ def c09k(ctx):
                        'computed for this cache' % (fn.short, '; '.join(bad)[:160]))
     if n < 8:
         raise Undecided('only %d location methods of CacheConfiguration found' % n)
+
+
+@rule('C09.k', floor=2)
+def c09k(ctx):
+    """tile locks live in the tile lock directory of their cache: every TileLocker the configuration loader builds (the one of the
+    tile manager and the one handed to the renderd tile creator) gets its directory from CacheConfiguration.lock_dir() -- the
+    `tile_lock_dir` option, by default <cache dir>/tile_locks.  `cache.lock_dir` is a different option (the directory of the *source*
+    locks, by default next to the configuration file): with it a request for an uncached tile creates lock files in a directory that
+    is configured neither for the cache nor for its tile locks"""
+    fn = ctx.fn('mapproxy/config/loader.py:CacheConfiguration.caches')
+    cf = Canon(fn)
+    made = [x for x in fn.walk() if is_call(x, 'TileLocker')]
+    if len(made) < 2:
+        raise Undecided('CacheConfiguration.caches: %d TileLocker constructions found (2 expected)' % len(made))
+    for k, x in enumerate(made):
+        v = keyword(x, 'lock_dir', 0)
+        form = cf.expr(v) if v is not None else None
+        ok = form is not None and is_call(form, 'self.lock_dir')
+        ctx.check(ok, 'CacheConfiguration.caches:tile-locker-%d-in-tile-lock-dir' % k, 'TileLocker(self.lock_dir(), ...)', fn, x,
+                  fail='a tile locker is built with the directory %s instead of the tile lock directory of the cache (self.lock_dir())'
+                       % (unparse(form)[:60] if form is not None else '?'))
+    ld = ctx.fn('mapproxy/config/loader.py:CacheConfiguration.lock_dir')
+    reads = [const_value(x.args[0]) for x in ld.walk() if isinstance(x, ast.Call) and isinstance(x.func, ast.Attribute) and
+             x.func.attr in ('get_path', 'get_value') and x.args]
+    ctx.check(reads == ['cache.tile_lock_dir'], 'CacheConfiguration.lock_dir:reads-tile_lock_dir', 'the tile lock directory is the tile_lock_dir option', ld,
+              fail='CacheConfiguration.lock_dir reads %s' % reads)
